@@ -54,7 +54,7 @@ def gen_ops(rng, m, t):
             ops.append({'kind': 'input', 'S': S, 'type': rng.choice(['int', 'int', 'fxp', 'fld', 'flt', 'grp', 'intlist']), 'base': rng.randint(-20, 20)})
         else:
             rform = rng.choice(['none', 'int', 'list', 'list'])
-            R = None if rform == 'none' else (rng.randrange(m) if rform == 'int' else subset(rng, m, allow_empty=rng.random() < 0.2))
+            R = None if rform == 'none' else (rng.randrange(m) if rform == 'int' else subset(rng, m, allow_empty=rng.random() < 0.4))
             thr = rng.choice([None, None] + list(range(t, 2 * t + 1)))
             if thr is not None and thr > m - 1:
                 thr = None
@@ -128,7 +128,7 @@ def run(shard, rec):
                 if tp == 'fld':
                     return types['fld'](v % 101)
                 if tp == 'fxp':
-                    return types['fxp'](v / 4)
+                    return types['fxp'](v / 4, integral=False)
                 if tp == 'flt':
                     return types['flt'](float(v) * 1.5)
                 return types['int'](v)
@@ -189,7 +189,8 @@ def run(shard, rec):
             k = firstbad if firstbad is not None else 0
             op = ops[k]
             V('no-termination', k, f'world ended {w.status}; errors {w.error_summaries()[:2]}',
-              {'senders_int': isinstance(op.get('S'), int), 'receivers_proper_subset': op['kind'] == 'transfer' and set(as_set(op.get('R'), m)) != set(range(m)),
+              {'type': op.get('type'), 'receivers_empty': op['kind'] == 'output' and as_set(op.get('R'), m) == [],
+               'senders_int': isinstance(op.get('S'), int), 'receivers_proper_subset': op['kind'] == 'transfer' and set(as_set(op.get('R'), m)) != set(range(m)),
                'dict_sparse': op.get('form') == 'dict_sparse'})
             rec.case(case, nontrivial=m >= 2)
             continue
